@@ -34,6 +34,12 @@ CLAIMED = {
  "C07": dict(text="The dispatch, filter, alignment and flag layer of string matching is extracted from the typed tree and compared with the specification: Search kind -> string operation with operands in the right positions; MatchType -> offset filter in three sibling copies (search and both halves of slow_aho); every scan uses find_overlapping_iter and no builder sets a match kind; needles and their MatchType context are pushed pairwise with equal text/kind into the bucket of their case class (parser and shaker); the stored case flag equals the flag the matcher was built with; plain case-sensitive searches are only constructed where the ignore-case flag is false; needle folding is ASCII; the pattern-syntax decision list and its order. Decides this layer, not the algorithms of std/regex/aho-corasick.",
              note="'Exact for all strings' additionally rests on the documented behaviour of std, regex and aho-corasick (trusted).",
              tech="static analysis: table extraction + sibling agreement + lockstep-push path rules + flag dataflow over THIR", ref="4/C07"),
+ "C03": dict(text="'No panic after load' is decided site by site: every unwrap/expect/panic!/unreachable!/index call and every overflow/bounds assertion in the MIR of all functions reachable (type-resolved call graph, dyn calls resolved to all local impls) from optimise/matches/validate is mapped to its typed-tree node and must be discharged by a named rule (dominating guard on the same value, unit-step counter, lockstep vectors, reviewed external fact) or by a lemma that is itself checked on the code: L-IDENT (identifier scan, who builds Identifier nodes, optimise keeps keys, coalesce congruence), L-SHAPE (is_solvable table == solver's handled set, and/or/not/comparison operand filters, group symbols, identifier values are predicates), L-MATRIX (one cell per column, cells address only their key, cache sized by columns), L-LOCKSTEP.",
+             note="Third-party panics on valid input, stack depth and allocation failure are out of scope; hand-built Expression trees (core feature) are outside the property.",
+             tech="static analysis: MIR panic-site inventory over the resolved call graph + THIR dominating-guard discharge rules + checked structural lemmas", ref="3.1, 3.2, 4/C03"),
+ "C04": dict(text="Every panic/overflow-capable site in the MIR of all functions reachable from the loading entry points (Rule::from_str/from_value/load, serde visitors, tokenise, into_identifier, parse_identifier, parse) is discharged by a named rule on its typed-tree context (guards implying len>=2 and ASCII delimiters for the quoted/contains slices, i>1 for tokens[i-2] with the counter in step with the loop, peek-then-next, len==1 before next().expect(), unit-step counters, reviewed external facts); termination of the tokeniser is a progress rule: each arm of its main loop consumes a char or returns, with the arm's own finite char set evaluated against the consuming predicate (std ASCII tables), and the Pratt loop consumes a token per cycle.",
+             note="serde_yaml's behaviour on adversarial YAML, stack depth and allocation failure are out of scope; termination of the parser's recursion is argued, not checked.",
+             tech="static analysis: MIR panic-site inventory + THIR dominating-guard discharge rules + loop-progress rule with finite char-set evaluation", ref="3.1, 3.5 PROGRESS, 4/C04"),
 }
 PENDING = {}
 props = [json.loads(l) for l in open(os.path.join(V, "properties.jsonl"))]
